@@ -7,10 +7,26 @@ from .. import common as C
 
 
 def run_probe_check(prop, tier, seed, rule, assume, level="exploration", corpus=False, shards=1, extra=(), min_evals=1000,
-                    full=False, extra_cov=None):
+                    full=False, extra_cov=None, miri=None):
+    """miri: {"quick": [probe args], "thorough": [probe args], "shards": n, "shard_by_seed": bool} - the same probe check is
+    additionally interpreted by Miri (undefined behaviour / invalid memory accesses in the front end's unsafe code are violations)"""
     t0 = time.time()
     C.build_probe(full=True)
     rep = C.run_probe(prop.lower(), tier, seed, extra=extra, shards=shards, corpus=corpus)
+    if miri:
+        mrep, ub = C.run_probe_miri(prop.lower(), seed, extra=miri[tier], shards=miri.get("shards", 16), corpus=corpus,
+                                    shard_by_seed=miri.get("shard_by_seed", False))
+        rep["violations"] = list(rep.get("violations", [])) + list(mrep.get("violations", [])) + ub
+        c = rep.setdefault("counters", {})
+        c["miri_evaluations"] = int(mrep.get("evaluations", 0))
+        c["miri_ub_reports"] = len(ub)
+        for k, v in mrep.get("counters", {}).items():
+            c["miri_" + k] = v
+        rep.setdefault("notes", []).append(
+            f"the same oracle was also run under Miri (nightly, front-end crates only, hooks on) on {mrep.get('evaluations', 0)} inputs: "
+            f"{len(ub)} undefined-behaviour report(s)")
+        if not ub and int(mrep.get("evaluations", 0)) == 0:
+            raise C.Inconclusive("the Miri run evaluated nothing")
     return C.finish(prop, tier, seed, t0, level, rep, assume, rule, min_evals=min_evals, extra_cov=extra_cov)
 
 
